@@ -747,6 +747,11 @@ fn s4_damage_and_junk(seed: u64) -> W {
                 io(std::fs::write(key_dir.join(item_name(0, 40, 100, 1)), vec![1u8; 100]));
                 io(std::fs::write(key_dir.join(item_name(9, 3, 100, 1)), vec![1u8; 100]));
                 io(std::fs::write(key_dir.join(item_name(20, 22, 0, 0)), b""));
+                // planted files that are SELF-CONSISTENT (length and crc32 in the name are those of the content, so the scan and the
+                // checksum verification accept them) but whose header has no / a single offset: a header count of 0 (`00 00 00 00`,
+                // crc32 0x2144df1c) claiming chunks [30,31), and a count of 1 with the offset 0 (crc32 0xa988dff7) claiming [32,33)
+                io(std::fs::write(key_dir.join(item_name(30, 31, 4, 0x2144_df1c)), [0u8; 4]));
+                io(std::fs::write(key_dir.join(item_name(32, 33, 8, 0xa988_dff7)), [1u8, 0, 0, 0, 0, 0, 0, 0]));
                 io(std::fs::write(key_dir.join(b64_url(&[1, 2, 3, 4, 5])), b"short name"));
             },
         }
@@ -763,6 +768,8 @@ fn s4_damage_and_junk(seed: u64) -> W {
         get(&c, k, 0, 40, false, &ctx)?;
         get(&c, k, 20, 22, false, &ctx)?;
         get(&c, k, 0, 1, false, &ctx)?;
+        get(&c, k, 30, 31, false, &ctx)?;
+        get(&c, k, 32, 33, false, &ctx)?;
         get(&c, k_other, 0, 3, true, &ctx)?;
         // normal flow continues: re-put, read back
         put(&c, k, s, e, &ctx)?;
